@@ -160,7 +160,7 @@ def run_stream(ctx, st, want=('C02', 'C03', 'C04'), extra_case=None, session_kwa
         # lifetimes recorded on objects (C03): destroy_time - create_time
         for i, lst in c.db.items():
             for ob in lst:
-                if not ob.alive and ob.lifespan() is not None and ob.lifespan() < -1e-9:
+                if st.get('monotonic', True) and not ob.alive and ob.lifespan() is not None and ob.lifespan() < -1e-9:
                     P('C03', 'negative-lifespan', '%s@%d gen %d lifespan %r' % (ob.type, ob.id, ob.generation, ob.lifespan()))
     # ---- alive set after every message (C03), via the recorded objects' destroy order: checked online ----
     new_logs = {k: v - before_logs.get(k, 0) for k, v in lc.counts.items() if v - before_logs.get(k, 0)}
